@@ -5,7 +5,7 @@ import bftcommon
 def run(ctx):
     q = ctx.quick
     ctx.tlc_must_hold("bft", "MCBFT", cfg="MCBFT_quick.cfg" if q else "MCBFT_thorough.cfg",
-                      timeout=600 if q else 3000, heap="8g", label="OrderIndependence in the design model")
+                      timeout=900 if q else 7200, heap="8g", label="OrderIndependence in the design model")
     bftcommon.binding_demo(ctx)
     stats = []
     stats += bftcommon.record_and_validate(ctx, "permute,latesibling,async-restart", 24 if q else 600, 36, "c04-orders")
